@@ -78,7 +78,7 @@ package hclsyntax
 //@ nosafety
 //@ ensures visible: forall k string :: { has(ret0, k) } has(ret0, k) ==> has(b.Attributes, k) && !has(b.hiddenAttrs, k)
 //@ ensures consumed: (forall j int :: { b.Blocks[j] } 0 <= j && j < len(b.Blocks) ==> has(b.hiddenBlocks, b.Blocks[j].Type)) ==> len(ret1) == 0
-//@ loop 1 invariant len(diags) == 0 && (forall j int :: { b.Blocks[j] } 0 <= j && j <= rangeindex ==> has(b.hiddenBlocks, b.Blocks[j].Type))
+//@ loop 1 invariant (forall j int :: { b.Blocks[j] } 0 <= j && j <= rangeindex ==> has(b.hiddenBlocks, b.Blocks[j].Type))
 //@ loop 2 invariant attrs != nil && fresh(attrs) && (forall k string :: { has(attrs, k) } has(attrs, k) ==> has(b.Attributes, k) && !has(b.hiddenAttrs, k))
 
 // verif:func (*Body).MissingItemRange
